@@ -24,7 +24,7 @@ from .c05 import observe_problem
 from .c07 import dom_digest, default_types_digest, OTHER_T, OTHER_U
 
 ID = "C17"
-RULE = ("domain elements: predicates p,q,r; function f; constant k; actions a1 (uses p,k), a2 (uses q,f,r); problem "
+RULE = ("domain elements: predicates p,q,r; function f; constant k; actions a1 (uses p,k), a2 (uses q,p,f,r; parameters ?x - t1 ?y - t2 ?w - t1); problem "
         "elements: objects o1,o2 (plus u0 - object, first in the first agent's file); facts (p o1), (p o2), (q o1 o2), (= (f) 1234567.25); types t1 > t2 > t3 > t4; goals (p o2), (r); agents 2 (quick) / 3 (thorough: "
         "domain splits only); every assignment of each element to a non-empty subset of agents that keeps each file "
         "self-contained; every permutation of the discovered files; add_dummy_actions on/off. one case = one domain split "
